@@ -126,6 +126,9 @@ func (do *ObjectContainer) PutItemAwareByName(name string, itemAware IItemAware)
 }
 
 func (do *ObjectContainer) Clone() map[string]IItem {
+	do.mu.RLock()
+	defer do.mu.RUnlock()
+
 	out := make(map[string]IItem)
 	for name, item := range do.dataObjects {
 		value := item.Get()
@@ -449,13 +452,13 @@ func (f *FlowDataLocator) PutIItemAwareLocator(name string, locator IItemAwareLo
 func (f *FlowDataLocator) CloneItems(name string) map[string]IItem {
 	out := make(map[string]IItem)
 
-	f.vmu.RLock()
+	// the locator registry is guarded by lmu (vmu guards the variables)
+	f.lmu.RLock()
 	locator, ok := f.locators[name]
+	f.lmu.RUnlock()
 	if !ok {
-		f.vmu.RUnlock()
 		return out
 	}
-	f.vmu.RUnlock()
 
 	return locator.Clone()
 }
